@@ -104,6 +104,11 @@ def run(ctx):
                 r, rr = s.run(entry)
                 res.evaluations += 2
                 res.count("dry_run_then_edit_" + ek)
+                if any(x["error"] is not None and x["error"].get("kind") == "dds" and "before the function that produces it" in (x["error"].get("msg") or "")
+                       for x in (r0, r)):
+                    # the edit deleted the call that produces a loaded path: the evaluation is refused by design (C09)
+                    res.count("rejected_load_before_produce")
+                    continue
                 res.nontrivial("%d dry-edit %s %d" % (wi, ek, k))
                 if k >= 3 and r0["error"] is None and rr0["error"] is None and pipeline.norm_ext(r0["value"]) != pipeline.norm_ext(rr0["value"]):
                     res.violations.append({"what": "evaluation restricted to stages %s (%s the edit %s) returned %r, plain execution gives %r" % (
